@@ -13,6 +13,8 @@ import (
 	"github.com/panjf2000/gnet/v2/zzverif/vlib"
 )
 
+var _ = vsys.Shimmed
+
 func main() {
 	res = vlib.Start("eng")
 	scratchDir = os.Getenv("VERIF_SCRATCH")
@@ -78,6 +80,88 @@ func main() {
 		}
 	case "c04", "c06", "c07":
 		runLifeMode(mode, r, keys)
+	case "c08":
+		ncase := 8
+		if res.Thorough() {
+			ncase = 80
+		}
+		if *vlib.FlagN > 0 {
+			ncase = *vlib.FlagN
+		}
+		for i := 0; i < ncase; i++ {
+			c := cfg{Net: []string{"udp", "udp6"}[i%2], Loops: []int{1, 4, 2}[i%3], RCap: 65536, WCap: 65536, ReusePort: true}
+			n := runC08Case(c, res.Seed*1000403+uint64(i), r.Pick(1, 2, 5, 16), r.Pick(40, 120), keys)
+			res.Eval(n)
+			res.Checkpoint()
+			if i < 2 {
+				res.Sample(map[string]any{"case": "c08", "config": c.String()})
+			}
+		}
+	case "c19":
+		ncase := 9
+		if res.Thorough() {
+			ncase = 120
+		}
+		if *vlib.FlagN > 0 {
+			ncase = *vlib.FlagN
+		}
+		cfgs := streamConfigs(r, true, 0)
+		for i := 0; i < ncase; i++ {
+			c := cfgs[i%len(cfgs)]
+			c.LB = []gnet.LoadBalancing{gnet.LeastConnections, gnet.SourceAddrHash}[i%2] // Engine.Register is documented as not safe with RoundRobin
+			kind := []string{"live", "live", "expired", "soon"}[i%4]
+			n := runC19Case(c, res.Seed*1000507+uint64(i), kind, keys)
+			res.Eval(n)
+			res.Checkpoint()
+			if i < 2 {
+				res.Sample(map[string]any{"case": "c19", "config": c.String(), "stop_context": kind})
+			}
+		}
+	case "c18":
+		K := int64(2)
+		var cfgs []cfg
+		for _, et := range []bool{false, true} {
+			for _, rp := range []bool{false, true} {
+				for _, nw := range []string{"tcp", "unix"} {
+					if nw == "unix" && rp {
+						continue
+					}
+					cfgs = append(cfgs, cfg{ET: et, Loops: 2, ReusePort: rp, Net: nw, RCap: 4096, WCap: 4096})
+				}
+			}
+		}
+		if res.Thorough() {
+			K = 6
+		} else {
+			// quick: three of the six configurations, rotating with the seed
+			o := int(res.Seed % uint64(len(cfgs)))
+			cfgs = []cfg{cfgs[o], cfgs[(o+2)%len(cfgs)], cfgs[(o+3)%len(cfgs)]}
+		}
+		if *vlib.FlagN > 0 {
+			K = int64(*vlib.FlagN)
+		}
+		var reached, notReached int64
+		nr := map[string]int{}
+		for ci, c := range cfgs {
+			for fi, f := range faultList(c, K) {
+				ok := runC18Case(c, res.Seed*1000603+uint64(ci*1000+fi), f, keys)
+				if ok {
+					reached++
+				} else {
+					notReached++
+					nr[c.class()+" "+vsys.CallName(f.call)]++
+				}
+				res.Checkpoint()
+				if res.NViolations() > 60 {
+					break
+				}
+			}
+		}
+		res.Eval(reached)
+		res.Obs("faults_injected_and_reached", reached)
+		res.Obs("faults_planned_but_site_not_reached", notReached)
+		res.Extra["not_reached"] = nr
+		res.Sample(map[string]any{"case": "c18", "fault": "read:ECONNRESET@1 on an accepted connection", "workload": "6 echo connections with content oracle (2 of them bulk, creating back-pressure)"})
 	case "c05":
 		nlife := 5
 		if res.Thorough() {
@@ -108,7 +192,7 @@ func main() {
 }
 
 func runLifeMode(mode string, r *vlib.Rand, keys map[string]struct{}) {
-	sources := []string{"Engine.Stop", "Stop", "OnOpen", "OnTraffic", "OnClose", "OnTick"}
+	sources := []string{"Engine.Stop", "Stop", "OnOpen", "OnTraffic", "OnClose", "OnTick", "accept-error"}
 	moments := []string{"idle", "connect-storm", "traffic"}
 	ncase := 16
 	if res.Thorough() {
@@ -124,6 +208,9 @@ func runLifeMode(mode string, r *vlib.Rand, keys map[string]struct{}) {
 		switch mode {
 		case "c04":
 			o.npeers = r.Pick(20, 40, 60)
+			if i%5 == 4 {
+				o.shutdownFrom = "accept-error"
+			}
 		case "c06":
 			o.shutdownFrom = sources[i%len(sources)]
 			o.moment = moments[(i/len(sources)+i)%len(moments)]
